@@ -1,6 +1,6 @@
 from props import cfg
 
-CFG = cfg('C18', extract='Ex_C18', driver='c18',
+CFG = cfg('C18', refine=['Refine_fingerprint'], extract='Ex_C18', driver='c18',
           rule='every corpus key (RSA 1024/2048/3072, DSA 1024/2048, Ed25519, Curve25519, ECDSA/ECDH on P-256/384/521 and secp256k1), primary and '
                'subkeys: PGPy fingerprint / key id / publen / emitted body vs the extracted model of PubKeyV4.fingerprint and of the packet-body encoder, '
                'vs the RFC 4880 12.2 / 5.5.2 transcription, and vs hashlib over the body PGPy exports; creation times 0, 1, 2^31-1, 2^31, 2^31+1, '
